@@ -267,6 +267,9 @@ def build_solver(job, ckpt_dir=None):
         kw["clear_value_history_on_convergence"] = job.get("clear", True)
     if kind == "SAVI":
         kw["shuffle_states"] = job.get("shuffle", False)
+        if job.get("shuffle_np"):
+            # the flag as a numpy boolean / a plain 1 (e.g. a row of an experiment grid): truthy is truthy
+            kw["shuffle_states"] = np.bool_(True) if job["shuffle_np"] == "np" else 1
         kw["random_seed"] = job.get("seed", 42)
     if kind == "PI":
         kw["max_eval_iter"] = job.get("max_eval_iter", 100)
